@@ -8,7 +8,8 @@
 From Coq Require Import String List.
 From CMinx Require Import Base.Str Model.Parser Model.Writer Model.DocTypes Model.Aggregator
      Model.Pipeline Proofs.WriterFacts Proofs.RstStructure Proofs.PageFacts
-     Base.PySem Gen.PySource Proofs.SourceMatch.
+     Base.PySem Gen.PySource Proofs.SourceMatch
+     Base.PyWriterSem Gen.PyWriterSource Proofs.WriterSourceMatch.
 Import ListNotations.
 
 (* every entry renders to exactly one directive *)
@@ -111,3 +112,30 @@ Theorem C07_field_matches_source :
   forall d n t, field_text d n t = PySource.Field_build_field_string n t (indent d).
 Proof. exact field_text_matches_source. Qed.
 Print Assumptions C07_field_matches_source.
+
+(* pywriter2coq: RSTWriter.to_text / Directive.to_text as regenerated from rstwriter.py on every run serialise the object tree of a model state to the model text *)
+Theorem C07_to_text_matches :
+  forall st w,
+    RSTWriter_to_text (conc st w) = Some (doc_text (eff st) (w_title w) (w_body w)).
+Proof. exact to_text_matches. Qed.
+Print Assumptions C07_to_text_matches.
+
+Theorem C07_str_elem_matches :
+  forall st lvl d e,
+    py_str_elem py_str_obj (conc_elem st lvl d e) = Some (elem_text (eff st) lvl d e).
+Proof. exact str_elem_matches. Qed.
+Print Assumptions C07_str_elem_matches.
+
+Theorem C07_section_to_text_matches :
+  forall st lvl title body,
+    RSTWriter_to_text (mk_writer st (S lvl) title (map (conc_elem st (S lvl) 0) body))
+    = Some (elem_text (eff st) lvl 0 (Sect title body)).
+Proof. exact section_to_text_matches. Qed.
+Print Assumptions C07_section_to_text_matches.
+
+Theorem C07_directive_to_text_matches :
+  forall st lvl d name args opts body,
+    Directive_to_text (mk_directive st d name args opts (map (conc_elem st 0 (S d)) body))
+    = Some (elem_text (eff st) lvl d (Dir name args opts body)).
+Proof. exact directive_to_text_matches. Qed.
+Print Assumptions C07_directive_to_text_matches.
